@@ -1,6 +1,6 @@
 #!/bin/bash
 # runs the thorough command of every claimed property (used to make sure none of them ends undecided on the unchanged tree)
 cd "$(dirname "$0")/.." || exit 2
-for p in C01 C02 C03 C05 C06 C07 C08 C09 C10 C11 C12 C14 C15 C18 C19; do
+for p in C01 C02 C03 C05 C06 C07 C08 C09 C10 C11 C12 C14 C15 C16 C18 C19; do
   ./check $p --tier thorough > /tmp/th_$p.log 2>&1; echo "$p exit=$? $(tail -1 /tmp/th_$p.log)"
 done
